@@ -1,10 +1,12 @@
 //! C09: XML output is well-formed and mirrors the tree node for node.
 //! K: real `format_xml` bytes vs the Lean model's `renderXml` on the same tree (parsed documents
-//!    and directly built trees x random option vectors), plus the theorem hypotheses
-//!    (`litLeafT`, `noEscapedTagT`) evaluated by the model on every tree.
+//!    and directly built trees x random option vectors), plus the theorems' hypothesis
+//!    (`litLeafT`) evaluated by the model on every tree.
 //! S: on the REAL output: the Lean strict reader `readXml` must accept it and the element tree
 //!    it returns must equal `xmlTree` of the same AST (same kinds, order, nesting; literals,
-//!    destinations, titles, labels, info strings carried exactly).
+//!    destinations, titles, labels, info strings, escaped-tag payloads carried exactly).
+//!    Every tree is checked alike; trees with an `EscapedTag` node were a listed finding class
+//!    until the repair in /repo commit ce28ea3 (payload now the escaped attribute `tag`).
 use crate::gen::Corpus;
 use crate::htmlk::{gen_case, Src};
 use crate::model::{Batch, Model};
@@ -18,8 +20,8 @@ use comrak::format_xml;
 use std::cell::RefCell;
 use std::rc::Rc;
 
-pub const SIG_ESCAPED_TAG: &str = "escaped-tag-payload-in-element-name";
-pub const SIG_OTHER: &str = "tree-without-escaped-tag";
+/// One class for every tree: no finding is listed for C09, so every S failure is a violation.
+pub const SIG_ANY: &str = "any-tree";
 
 struct Real {
     xml: Vec<u8>,
@@ -115,7 +117,7 @@ pub fn push_case<'a>(bt: &mut Batch<'a>, rep: &mut Report, o: Opts, src: Src, sr
     if has_escaped_tag {
         rep.count("trees-with-escaped_tag");
     }
-    for (pat, key) in [(&b"&quot;"[..], "real-output-has-&quot;"), (b"&lt;", "real-output-has-&lt;"), (b"&amp;", "real-output-has-&amp;"), (b" info=\"", "real-output-has-info-attr"), (b" title=\"", "real-output-has-title-attr"), (b" label=\"", "real-output-has-label-attr")] {
+    for (pat, key) in [(&b"&quot;"[..], "real-output-has-&quot;"), (b"&lt;", "real-output-has-&lt;"), (b"&amp;", "real-output-has-&amp;"), (b" info=\"", "real-output-has-info-attr"), (b" title=\"", "real-output-has-title-attr"), (b" label=\"", "real-output-has-label-attr"), (b"<escaped_tag tag=\"", "real-output-has-escaped_tag-tag-attr"), (b"<escaped_tag sourcepos=\"", "real-output-has-escaped_tag-sourcepos-then-tag")] {
         if r.xml.windows(pat.len()).any(|w| w == pat) {
             rep.count(key);
         }
@@ -123,7 +125,7 @@ pub fn push_case<'a>(bt: &mut Batch<'a>, rep: &mut Report, o: Opts, src: Src, sr
     if r.xml.windows(42).any(|w| w[0] == b'\n' && w[1..41].iter().all(|c| *c == b' ') && w[41] == b'<') {
         rep.count("real-output-reaches-indent-cap-40");
     }
-    let sig: &'static str = if has_escaped_tag { SIG_ESCAPED_TAG } else { SIG_OTHER };
+    let sig: &'static str = SIG_ANY;
     // development aid: CVH_C09_DUMP=<file> appends "<has_escaped_tag> <hex of the real output>" per case
     // (used once to compare the Lean reader's verdicts with an independent XML parser)
     if let Ok(path) = std::env::var("CVH_C09_DUMP") {
@@ -138,18 +140,12 @@ pub fn push_case<'a>(bt: &mut Batch<'a>, rep: &mut Report, o: Opts, src: Src, sr
     let from_doc = matches!(src, Src::Doc(_));
     bt.push(format!("xmlshape {}", r.tree_wire), move |resp, rep| {
         rep.k_evals += 1;
-        let want_net = if has_escaped_tag { "0" } else { "1" };
-        let mut it = resp.split(' ');
-        let (lit_leaf, net) = (it.next().unwrap_or(""), it.next().unwrap_or(""));
-        if lit_leaf != "1" {
+        if resp != "1" {
             rep.disagree(
                 "theorem-hypothesis-litLeaf",
-                i0.clone(),
-                format!("a literal-kind node has children ({}); xml_balanced assumes litLeafT", if from_doc { "parsed tree" } else { "built tree" }),
+                i0,
+                format!("a literal-kind node has children ({}); xml_mirrors_tree and xml_balanced assume litLeafT", if from_doc { "parsed tree" } else { "built tree" }),
             );
-        }
-        if net != want_net {
-            rep.disagree("noEscapedTag-flag", i0, format!("model noEscapedTagT={} but the real tree has_escaped_tag={}", net, has_escaped_tag));
         }
     });
 
@@ -191,8 +187,8 @@ pub fn push_case<'a>(bt: &mut Batch<'a>, rep: &mut Report, o: Opts, src: Src, sr
     });
 }
 
-/// Small fixed corpus: the repaired defect, the listed finding, every attribute-carrying kind with
-/// hostile payloads.
+/// Small fixed corpus: the two repaired defects (info string, escaped-tag payload), every
+/// attribute-carrying kind with hostile payloads.
 const FIXED_DOCS: &[&str] = &[
     "```a\"b<c\nx\n```\n",
     "``` a&b>c \"d\"\n<&>\"\n```\n",
@@ -208,11 +204,16 @@ const FIXED_DOCS: &[&str] = &[
     "",
 ];
 
+/// Directly built trees with `EscapedTag` payloads the parser never produces (the generators use
+/// `~`, `~~`, `|` only): the four escaped characters, something looking like an attribute, a
+/// payload looking like the end of the tag, the empty payload; childless and with a text child.
+const FIXED_ESCAPED_TAG_PAYLOADS: &[&[u8]] = &[b"\"<&>|", b" a=\"b\" c='d'", b"/>", b">x</escaped_tag><evil", b"", b"tag=\"", b"\xc3\xa9 &amp; &#60;"];
+
 pub fn run(cfg: &Cfg, rep: &mut Report) {
     let m = Model::from_env();
     let mut rng = Rng::new(cfg.seed ^ 0xC09);
     let corpus = Corpus::load();
-    rep.rule = "documents from the grammar/palette/bytes/corpus generators and directly built trees (every kind incl. Raw, EscapedTag, hostile literals/info strings/titles/labels/alert titles; no children under literal kinds) x random option vectors (render.sourcepos on and off), plus a fixed corpus under all-extensions with sourcepos on/off and block quotes / lists nested 19..300 deep (indentation cap); per case: real format_xml bytes = model bytes (K), strict reader accepts the real bytes and returns the element tree of the AST (S); distinct_nontrivial counts distinct (node-kind sequence, sourcepos bit) classes with more than the Document node".into();
+    rep.rule = "documents from the grammar/palette/bytes/corpus generators and directly built trees (every kind incl. Raw, EscapedTag, hostile literals/info strings/titles/labels/alert titles; no children under literal kinds) x random option vectors (render.sourcepos on and off), plus a fixed corpus under all-extensions with sourcepos on/off, fixed EscapedTag trees with hostile payloads (the four escaped characters, attribute and tag look-alikes, empty) and block quotes / lists nested 19..300 deep (indentation cap); per case: real format_xml bytes = model bytes (K), strict reader accepts the real bytes and returns the element tree of the AST (S); distinct_nontrivial counts distinct (node-kind sequence, sourcepos bit) classes with more than the Document node".into();
     {
         let mut bt = Batch::new();
         for d in FIXED_DOCS {
@@ -222,6 +223,18 @@ pub fn run(cfg: &Cfg, rep: &mut Report) {
                     o.set("strikethrough", false);
                 }
                 push_case(&mut bt, rep, o, Src::Doc(d.to_string()), "fixed-corpus");
+            }
+        }
+        for p in FIXED_ESCAPED_TAG_PAYLOADS {
+            for spos in [false, true] {
+                let o = Opts::default().with("sourcepos", spos);
+                let h = hex(p);
+                let leaf = format!("N document 1 1 1 9 N paragraph 1 1 1 9 N escaped_tag 1 1 1 2 {} E E E", h);
+                let inner = format!("N document 1 1 1 9 N paragraph 1 1 1 9 N escaped_tag 1 1 1 9 {} N text 1 2 1 8 61223c E E E E", h);
+                let root = format!("N escaped_tag 0 0 0 0 {} E", h);
+                for w in [leaf, inner, root] {
+                    push_case(&mut bt, rep, o.clone(), Src::Tree(w), "fixed-escaped-tag-tree");
+                }
             }
         }
         // nesting deeper than 20 levels: the indentation cap min(indent, 40)
